@@ -16,7 +16,9 @@ import (
 
 // needsSysfs: harnesses that run the real LED loop need /sys/class/hidraw/hidraw0/device/input/input0/event0;
 // the test re-executes itself in a private mount namespace (root required) and mounts a tmpfs there.
-func needsSysfs() bool { return strings.HasPrefix(verifrt.HarnessName(), "HarnessC17Led") }
+func needsSysfs() bool {
+	return strings.HasPrefix(verifrt.HarnessName(), "HarnessC17Led") || strings.HasPrefix(verifrt.HarnessName(), "HarnessC16Led")
+}
 
 func TestVerifReplay(t *testing.T) {
 	if needsSysfs() && os.Getenv("VERIF_IN_NS") == "" {
